@@ -131,6 +131,8 @@ func restartAndCheck(o *hx.Out, p params, st surv, why string, sched string) str
 		if _, err = lc.BecomeLeader(ctx, &proto.BecomeLeaderRequest{Namespace: ns, Shard: shardId, Term: restartTerm, ReplicationFactor: 1}); err != nil {
 			if gap {
 				o.Count("restart:leader-cannot-replay-trimmed-log(no-verdict)")
+			} else if strings.Contains(err.Error(), "deadline exceeded") {
+				reportStuck(o, p, "BecomeLeader of the restarted node does not complete within the harness's bound; "+ctxt)
 			} else {
 				o.Violation("crash:entry-skipped", fmt.Sprintf("%s: the restarted node cannot replay its log (BecomeLeader: %v)", ctxt, err))
 			}
